@@ -185,12 +185,12 @@ func runC19(c *Check) {
 
 	// ---- R3 phased shutdown
 	for _, spec := range []struct {
-		fn, typ        string
-		inc, proc      string
-		closes         []string
-		saves          []string
-		done           string
-		doneVal        bool
+		fn, typ   string
+		inc, proc string
+		closes    []string
+		saves     []string
+		done      string
+		doneVal   bool
 	}{
 		{"spynode.(*Node).Run", "Node", "incomingCount", "processingCount",
 			[]string{"(*spynode.MessageChannel).Close", "(*handlers.TxChannel).Close"},
